@@ -53,8 +53,9 @@ type destSpec struct {
 }
 
 type httpSpec struct {
-	srcNs []string // one entry per HTTPMatchRequest (its sourceNamespace, possibly "")
-	dests []destSpec
+	srcNs    []string // one entry per HTTPMatchRequest (its sourceNamespace, possibly "")
+	dests    []destSpec
+	delegate *[2]string // (namespace or "", name): a delegating route (no match, no destinations)
 }
 
 type vsSpec struct {
@@ -90,7 +91,26 @@ type sidecarSpec struct {
 	egress   []listenerSpec
 }
 
+// sevRule: one matcher of a ServiceEntryVisibility policy.
+type sevRule struct {
+	kind   string            // "?" unset matcher, "!" namespace selector without a selector, "s" selector
+	labels map[string]string // matchLabels (kind "s"; empty: matches every namespace)
+}
+
+type sevPolicy struct {
+	vis   string // u | p | n | x   (UNSPECIFIED / PUBLIC / NAMESPACE / NONE)
+	rules []sevRule
+}
+
+// sevSpec: MeshConfig.serviceEntryVisibility (policies; applyToSidecars is meshSpec.apply).
+type sevSpec struct {
+	dflt     string
+	policies []sevPolicy
+}
+
 type meshSpec struct {
+	sev                  *sevSpec
+	nsLabels             map[string]map[string]string
 	root                 string
 	defSvc, defVS, defDR []string
 	nilSvc, nilVS, nilDR bool
@@ -99,6 +119,7 @@ type meshSpec struct {
 
 type world struct {
 	unified, pickBest, enhanced bool
+	lazy, concurrent            bool // ENABLE_LAZY_SIDECAR_EVALUATION, PILOT_CONVERT_SIDECAR_SCOPE_CONCURRENCY > 1
 	mesh                        meshSpec
 	svcs                        []svcSpec
 	vss                         []vsSpec
@@ -200,6 +221,10 @@ func encHTTP(hs []httpSpec) string {
 	}
 	o := make([]string, len(hs))
 	for i, h := range hs {
+		if h.delegate != nil {
+			o[i] = "@" + wire.Enc(h.delegate[0]) + "|" + wire.Enc(h.delegate[1])
+			continue
+		}
 		o[i] = encItems(h.srcNs, "|") + "^" + encDests(h.dests)
 	}
 	return strings.Join(o, ";")
@@ -211,8 +236,13 @@ func decHTTP(t string) []httpSpec {
 	}
 	var out []httpSpec
 	for _, it := range strings.Split(t, ";") {
+		if strings.HasPrefix(it, "@") {
+			a, b, _ := strings.Cut(it[1:], "|")
+			out = append(out, httpSpec{delegate: &[2]string{wire.Dec(a), wire.Dec(b)}})
+			continue
+		}
 		a, b, _ := strings.Cut(it, "^")
-		out = append(out, httpSpec{decItems(a, "|"), decDests(b)})
+		out = append(out, httpSpec{srcNs: decItems(a, "|"), dests: decDests(b)})
 	}
 	return out
 }
@@ -302,8 +332,89 @@ func decAliases(t string) [][2]string {
 // ---------------------------------------------------------------- op lines <-> specs
 
 func (m meshSpec) line() []string {
-	return []string{"mesh", wire.Enc(m.root), encOptList(m.defSvc, m.nilSvc), encOptList(m.defVS, m.nilVS),
+	out := []string{"mesh", wire.Enc(m.root), encOptList(m.defSvc, m.nilSvc), encOptList(m.defVS, m.nilVS),
 		encOptList(m.defDR, m.nilDR), wire.B(m.apply)}
+	if m.sev != nil {
+		out = append(out, "v="+encSev(m.sev))
+	}
+	return out
+}
+
+// encSev: <default>[;<vis>^<rule>&<rule>...]...   rule = ? | ! | - | k=v+k=v
+func encSev(v *sevSpec) string {
+	parts := []string{v.dflt}
+	for _, p := range v.policies {
+		var rs []string
+		for _, r := range p.rules {
+			switch {
+			case r.kind != "s":
+				rs = append(rs, r.kind)
+			case len(r.labels) == 0:
+				rs = append(rs, "-")
+			default:
+				rs = append(rs, strings.ReplaceAll(encLabels(r.labels, false), "|", "+"))
+			}
+		}
+		parts = append(parts, p.vis+"^"+strings.Join(rs, "&"))
+	}
+	return strings.Join(parts, ";")
+}
+
+func decSev(t string) *sevSpec {
+	parts := strings.Split(t, ";")
+	v := &sevSpec{dflt: parts[0]}
+	for _, pt := range parts[1:] {
+		vis, rs, _ := strings.Cut(pt, "^")
+		p := sevPolicy{vis: vis}
+		if rs != "" {
+			for _, r := range strings.Split(rs, "&") {
+				switch r {
+				case "?", "!":
+					p.rules = append(p.rules, sevRule{kind: r})
+				case "-":
+					p.rules = append(p.rules, sevRule{kind: "s", labels: map[string]string{}})
+				default:
+					l, _ := decLabels(strings.ReplaceAll(r, "+", "|"))
+					p.rules = append(p.rules, sevRule{kind: "s", labels: l})
+				}
+			}
+		}
+		v.policies = append(v.policies, p)
+	}
+	return v
+}
+
+func sevVisProto(c string) meshconfig.ServiceEntryVisibility_Visibility {
+	switch c {
+	case "p":
+		return meshconfig.ServiceEntryVisibility_PUBLIC
+	case "n":
+		return meshconfig.ServiceEntryVisibility_NAMESPACE
+	case "x":
+		return meshconfig.ServiceEntryVisibility_NONE
+	}
+	return meshconfig.ServiceEntryVisibility_VISIBILITY_UNSPECIFIED
+}
+
+// proto builds the MeshConfig.serviceEntryVisibility message of the spec.
+func (v *sevSpec) proto(apply bool) *meshconfig.ServiceEntryVisibility {
+	out := &meshconfig.ServiceEntryVisibility{ApplyToSidecars: apply, DefaultVisibility: sevVisProto(v.dflt)}
+	for _, p := range v.policies {
+		pp := &meshconfig.ServiceEntryVisibility_Policy{Visibility: sevVisProto(p.vis)}
+		for _, r := range p.rules {
+			mr := &meshconfig.ServiceEntryVisibility_MatchRule{}
+			switch r.kind {
+			case "!":
+				mr.Matcher = &meshconfig.ServiceEntryVisibility_MatchRule_NamespaceSelector{}
+			case "s":
+				mr.Matcher = &meshconfig.ServiceEntryVisibility_MatchRule_NamespaceSelector{
+					NamespaceSelector: &meshconfig.LabelSelector{MatchLabels: r.labels}}
+			}
+			pp.MatchingRules = append(pp.MatchingRules, mr)
+		}
+		out.Policies = append(out.Policies, pp)
+	}
+	return out
 }
 
 func (s svcSpec) line() []string {
@@ -350,7 +461,8 @@ func flagOf(toks []string, key string, def bool) bool {
 }
 
 func newWorld(caseToks []string) *world {
-	w := &world{unified: flagOf(caseToks, "U", true), pickBest: flagOf(caseToks, "P", true), enhanced: flagOf(caseToks, "E", true)}
+	w := &world{unified: flagOf(caseToks, "U", true), pickBest: flagOf(caseToks, "P", true), enhanced: flagOf(caseToks, "E", true),
+		lazy: flagOf(caseToks, "L", true), concurrent: flagOf(caseToks, "C", false)}
 	w.mesh = meshSpec{root: "istio-system", nilSvc: true, nilVS: true, nilDR: true}
 	return w
 }
@@ -359,7 +471,16 @@ func newWorld(caseToks []string) *world {
 func (w *world) apply(t []string) bool {
 	atoi := func(s string) int { n, _ := strconv.Atoi(s); return n }
 	switch {
-	case t[0] == "mesh" && len(t) == 6:
+	case t[0] == "nsl" && len(t) == 3:
+		if w.mesh.nsLabels == nil {
+			w.mesh.nsLabels = map[string]map[string]string{}
+		}
+		l, _ := decLabels(t[2])
+		w.mesh.nsLabels[wire.Dec(t[1])] = l
+	case t[0] == "mesh" && (len(t) == 6 || (len(t) == 7 && strings.HasPrefix(t[6], "v="))):
+		if len(t) == 7 {
+			w.mesh.sev = decSev(t[6][2:])
+		}
 		w.mesh.root = wire.Dec(t[1])
 		w.mesh.defSvc, w.mesh.nilSvc = optList(t[2])
 		w.mesh.defVS, w.mesh.nilVS = optList(t[3])
@@ -408,6 +529,8 @@ func (s *svcSpec) real(idx int) *model.Service {
 		pr := protocol.HTTP
 		if strings.HasPrefix(p.name, "tcp") {
 			pr = protocol.TCP
+		} else if strings.HasPrefix(p.name, "tls") {
+			pr = protocol.TLS
 		}
 		ports = append(ports, &model.Port{Name: p.name, Port: p.num, Protocol: pr})
 	}
@@ -465,6 +588,11 @@ func (v *vsSpec) real() config.Config {
 	spec := &networking.VirtualService{Hosts: v.hosts, Gateways: v.gateways, ExportTo: v.exportTo}
 	for _, h := range v.http {
 		r := &networking.HTTPRoute{}
+		if h.delegate != nil {
+			r.Delegate = &networking.Delegate{Name: h.delegate[1], Namespace: h.delegate[0]}
+			spec.Http = append(spec.Http, r)
+			continue
+		}
 		for _, sn := range h.srcNs {
 			r.Match = append(r.Match, &networking.HTTPMatchRequest{SourceNamespace: sn})
 		}
@@ -573,7 +701,9 @@ func (w *world) meshConfig() *meshconfig.MeshConfig {
 	m.DefaultServiceExportTo = set(w.mesh.defSvc, w.mesh.nilSvc)
 	m.DefaultVirtualServiceExportTo = set(w.mesh.defVS, w.mesh.nilVS)
 	m.DefaultDestinationRuleExportTo = set(w.mesh.defDR, w.mesh.nilDR)
-	if w.mesh.apply {
+	if w.mesh.sev != nil {
+		m.ServiceEntryVisibility = w.mesh.sev.proto(w.mesh.apply)
+	} else if w.mesh.apply {
 		m.ServiceEntryVisibility = &meshconfig.ServiceEntryVisibility{ApplyToSidecars: true}
 	}
 	return m
@@ -604,12 +734,24 @@ func (w *world) build() {
 	features.UnifiedSidecarScoping = w.unified
 	features.SidecarPickBestServiceNamespace = w.pickBest
 	features.EnableEnhancedDestinationRuleMerge = w.enhanced
+	// how the scopes are computed must not matter: eagerly / lazily, sequentially / by a worker pool
+	features.EnableLazySidecarEvaluation = w.lazy
+	features.ConvertSidecarScopeConcurrency = 1
+	if w.concurrent {
+		features.ConvertSidecarScopeConcurrency = 4
+	}
 	w.byID = map[string]*svcSpec{}
 	env := model.NewEnvironment()
 	env.Watcher = meshwatcher.NewTestWatcher(w.meshConfig())
 	d := &sd{}
 	for i := range w.svcs {
-		d.services = append(d.services, w.svcs[i].real(i))
+		rs := w.svcs[i].real(i)
+		if w.svcs[i].vis == "a" {
+			// the visibility the real policy evaluation resolves for the service's namespace
+			// (serviceentry_visibility.go: CompileServiceEntryVisibility + VisibilityFor)
+			rs.Attributes.Visibility = w.realVisibilityFor(w.svcs[i].ns)
+		}
+		d.services = append(d.services, rs)
 		w.byID[w.svcs[i].id] = &w.svcs[i]
 	}
 	env.ServiceDiscovery = d
@@ -729,4 +871,14 @@ func (w *world) keyAddr(h, ns string) string {
 		}
 	}
 	return ""
+}
+
+// realVisibilityFor runs the real compiled serviceEntryVisibility matcher on the labels of a namespace.
+func (w *world) realVisibilityFor(ns string) model.ServiceVisibility {
+	var sev *meshconfig.ServiceEntryVisibility
+	if w.mesh.sev != nil {
+		sev = w.mesh.sev.proto(w.mesh.apply)
+	}
+	m, _ := model.CompileServiceEntryVisibility(sev)
+	return m.VisibilityFor(w.mesh.nsLabels[ns])
 }
